@@ -983,7 +983,9 @@ def gradient_node(g, r, gid, units=None, kind=None, with_stops=True, with_geom=T
         if kind == "linearGradient":
             for k in ("x1", "y1", "x2", "y2"):
                 if r.random() < 0.8:
-                    n.attrs[k] = L(r.uniform(0, 1))
+                    # (tiny values only for the start point: a tiny x2 / y2 next to a default start makes the whole
+                    #  gradient vector tiny - with a reflect / repeat spread a colour field below any resolution)
+                    n.attrs[k] = L(r.uniform(0, 1), tiny_ok=k in ("x1", "y1"))
             if n.attrs.get("x1", "0") == n.attrs.get("x2", "1") and n.attrs.get("y1", "0") == n.attrs.get("y2", "0"):
                 n.attrs["x2"] = L(1.0)
                 n.attrs["x1"] = L(0.0)
@@ -1002,8 +1004,8 @@ def gradient_node(g, r, gid, units=None, kind=None, with_stops=True, with_geom=T
                 # focal point strictly inside the end circle
                 a = r.uniform(0, 6.28)
                 d = r.uniform(0, 0.6) * rr
-                n.attrs["fx"] = L(cx + d * math.cos(a))
-                n.attrs["fy"] = L(cy + d * math.sin(a))
+                n.attrs["fx"] = L(cx + d * math.cos(a), tiny_ok=False)
+                n.attrs["fy"] = L(cy + d * math.sin(a), tiny_ok=False)
                 g.f["grad_focal"] += 1
             if r.random() < 0.2:
                 n.attrs["fr"] = L(r.uniform(0.02, 0.2) * rr, tiny_ok=False)
